@@ -9,6 +9,7 @@ import (
 	"go/token"
 	"os"
 	"path/filepath"
+	"regexp"
 	"sort"
 	"strings"
 	"testing"
@@ -22,11 +23,11 @@ import (
 const prop = "C10"
 
 type program struct {
-	files map[string]string
-	flags []string
-	desc  []string
+	files           map[string]string
+	flags           []string
+	desc            []string
 	renamesExpected bool
-	outcome string
+	outcome         string
 }
 
 var suffixPool = []string{"", "A", "B", "X1", "ForTheFirstType", "WithAVeryLongSuffixToMakeTheNameLongerThanAnyFreshName", "Q", "Z9"}
@@ -61,7 +62,19 @@ func drawProgram(t *rapid.T) *program {
 	type call struct{ name, typ string }
 	var calls []call
 	fileSrc := make([]strings.Builder, nfiles)
+	// files produced by other generators start with a //line directive that names their source: goderive
+	// must keep working on the .go file itself (the directive names an existing file of another directory,
+	// an existing non-Go file of this directory, or nothing that exists)
+	lineTargets := []string{"../other/gram.y:1", "notes.txt:3", "missing.rl:10", "../other/other.go:1"}
+	lineDirective := func(label string) string {
+		if rapid.IntRange(0, 3).Draw(t, label) != 0 {
+			return ""
+		}
+		pr.desc = append(pr.desc, "line-directive")
+		return "//line " + pick(t, label+"-target", lineTargets) + "\n"
+	}
 	for i := range fileSrc {
+		fileSrc[i].WriteString(lineDirective("linedir"))
 		fileSrc[i].WriteString("package p\n\n")
 		if rapid.Bool().Draw(t, "filecomment") {
 			fmt.Fprintf(&fileSrc[i], "// file %d keeps this comment.\n\n", i)
@@ -117,11 +130,12 @@ func drawProgram(t *rapid.T) *program {
 	}
 	// a file without any derive call, not gofmt-formatted
 	if rapid.Bool().Draw(t, "bystander") {
-		pr.files["p/bystander.go"] = "package p\n\n// Bystander has no derive call.\nfunc   Bystander( )   int   {\n        return 1   // odd spacing stays\n}\n"
+		pr.files["p/bystander.go"] = lineDirective("linedir-bystander") + "package p\n\n// Bystander has no derive call.\nfunc   Bystander( )   int   {\n        return 1   // odd spacing stays\n}\n"
 	}
 	// a second package directory that is not processed
 	pr.files["other/other.go"] = "package other\n\nfunc   Untouched( ) {}\n"
 	pr.files["p/notes.txt"] = "not a go file\n"
+	pr.files["other/gram.y"] = "%% a grammar that some generator turned into a .go file\n"
 	// clash analysis
 	byName := map[string]map[string]bool{}
 	byType := map[string]map[string]bool{}
@@ -261,6 +275,14 @@ func judge(c *pkit.Ctx, pr *program) (map[string]string, string, bool) {
 			sig["check"] = "rewrite-malformed"
 			return sig, fmt.Sprintf("rewritten %s: %v\n--- original\n%s\n--- rewritten\n%s", path, err, orig, now), nt
 		}
+		if renamed == 0 && bytes.Equal(exp, now) && renamedForthAndBack(res.Stderr, string(orig)) {
+			// A call of this file was renamed in one generation pass and renamed back in a later one (the
+			// name kept under -dedup is the first one registered, and a nested call that can only be typed
+			// after a reload registers before the calls resolved to the previous pass's output). The file
+			// did contain a renamed call and is exactly gofmt(original): the statement does not exclude it.
+			c.Rep.Class("renamed-forth-and-back")
+			continue
+		}
 		if renamed == 0 {
 			sig["check"] = "rewrote-file-without-renamed-call"
 			return sig, fmt.Sprintf("%s contains no renamed derive call but was rewritten\n--- original\n%s\n--- now\n%s", path, orig, now), nt
@@ -277,6 +299,24 @@ func judge(c *pkit.Ctx, pr *program) (map[string]string, string, bool) {
 		}
 	}
 	return nil, "", nt
+}
+
+var reRenameLog = regexp.MustCompile(`changing function call name from (\w+) to (\w+)`)
+
+// renamedForthAndBack reports whether goderive's log shows a rename X -> Y and a rename Y -> X for a
+// name X that the source calls.
+func renamedForthAndBack(log, src string) bool {
+	type pair struct{ from, to string }
+	seen := map[pair]bool{}
+	for _, m := range reRenameLog.FindAllStringSubmatch(log, -1) {
+		seen[pair{m[1], m[2]}] = true
+	}
+	for p := range seen {
+		if seen[pair{p.to, p.from}] && regexp.MustCompile(`\b`+regexp.QuoteMeta(p.from)+`\b`).MatchString(src) {
+			return true
+		}
+	}
+	return false
 }
 
 func TestProp(t *testing.T) {
